@@ -300,8 +300,6 @@ def oracle(case, before, obs, clean_after, limit):
         mine = calls_of.get(l, [])
         if any(e["fault"] is not None for e in mine):
             bad.append(f"step {l}: condition {typ}/Ready although one of its API calls failed")
-        if any(e["method"] != "GET" for e in mine):
-            bad.append(f"step {l}: condition {typ}/Ready in a pass in which it was still mutating its resource")
         if any(reason_of.get(d) != "Ready" for d in s["deps"]):
             bad.append(f"step {l}: condition {typ}/Ready although a dependency is not Ready")
     # -- steps run only on Ok dependencies (also under faults)
